@@ -10,7 +10,7 @@ COQ_DIR = 'C14'
 COQ_HEADER = 'From V Require Import Common.Num C14.Model.\nOpen Scope Q_scope.'
 RULE = ('histories of 8-40 operations over a growing table of related stream objects (1-3 constructed Stream/MultiStream '
         'objects, then proxies, flow proxies, copies, linked streams and phase views created by the history itself): reads of '
-        'H, h, S, C, Cn, V, kappa, mu, sigma, epsilon, Hvap interleaved with every public mutator (T, P, phase, phases, '
+        'H, h, S, C, Cn, V, kappa, mu, sigma, epsilon, Hvap interleaved with every public mutator (T, P, H and S assignment, phase, phases, '
         'imol[...] = v, scale, F_mol, empty, link_with with all flag combinations, unlink, copy_like, copy_flow, '
         'copy_thermal_condition, copy_phase, mix_from with and without energy balance, reset_cache, property-package '
         'reset between three packages of which two share the Chemicals object and differ only in their property functions); '
@@ -30,7 +30,7 @@ ASSUMPTIONS = ['C14_vol_fresh holds on histories in which MultiStreams that link
                'the property-package functions are deterministic functions of (phase, composition, T, P) that respect numeric '
                'equality of their arguments (calc1_ext / calcx_ext); nothing else is assumed about them',
                'float rounding is not modelled: inputs are dyadic so flows, totals and branch decisions are exact; values compared to 1e-9',
-               'the temperature found by the H setter inside mix_from(energy_balance=True) is an oracle value (any T)']
+               'the temperature found by the H / S setters (directly or inside mix_from(energy_balance=True)) is an oracle value (any T)']
 TRUSTED = ['the per-chemical (T, P, phase)-keyed molar-volume memo inside VolumetricFlowDict (dictionary_view.py) is C11\'s; '
            'here a volumetric view returns mol * 1000 * V_j(phase, T, P) for the phase container / phase and ThermalCondition it holds',
            'model coq/C14/Model.v is hand-written from thermosteam/_stream.py, _multi_stream.py, indexer.py, _phase.py; tie = correspondence check',
@@ -86,6 +86,10 @@ def env():
             return 256. + 16. * (int(round(abs(H))) % 8)
         def xsolve_T_at_HP(self, phase_mol, H, T_guess, P):
             return 256. + 16. * (int(round(abs(H))) % 8)
+        def solve_T_at_SP(self, phase, mol, S, T_guess, P):
+            return 264. + 16. * (int(round(abs(S))) % 8)
+        def xsolve_T_at_SP(self, phase_mol, S, T_guess, P):
+            return 264. + 16. * (int(round(abs(S))) % 8)
 
     from thermosteam.base import PhaseTPHandle
     class StubV:
@@ -130,11 +134,12 @@ def gen_op(rng, derived=False):
             return ['rvol', i]
         names = list(PROPS) + (DERIVED + VECTOR if derived else [])
         return ['read', i, rng.choice(names)]
-    k = rng.choice(['setT', 'setT', 'setP', 'setphase', 'setflow', 'setflow', 'setflow', 'scale', 'scale', 'fmol', 'empty',
+    k = rng.choice(['setT', 'setT', 'setH', 'setS', 'setP', 'setphase', 'setflow', 'setflow', 'setflow', 'scale', 'scale', 'fmol', 'empty',
                     'proxy', 'proxy', 'flow_proxy', 'copy', 'link', 'link', 'unlink', 'copy_like', 'copy_tc', 'copy_phase',
                     'mix', 'mix', 'view', 'view', 'setphases', 'reset_cache', 'reset_thermo', 'new'])
     if k == 'setT': return [k, i, rng.choice(TS)]
     if k == 'setP': return [k, i, rng.choice(PS)]
+    if k in ('setH', 'setS'): return [k, i, float(rng.choice([0, 0, 1, 3, 64, 1000, -5, F(1, 2)]))]
     if k == 'setphase': return [k, i, rng.choice(PHS)]
     if k == 'setflow': return [k, i, rng.choice(PHS), rng.randrange(3), float(rng.choice(FLOWS))]
     if k in ('scale', 'fmol'): return [k, i, float(rng.choice(KS))]
@@ -271,12 +276,34 @@ def scripted_pair(rng, derived=False):
         ops.append(gen_op(rng, derived))
     return {'ops': ops}
 
+def scripted_nested(rng, derived=False):
+    """a phase view is itself turned into a MultiStream and gets views of its own; memos are filled on every level and the
+    owner's cache is then reset (reset_cache / unlink / phases change), which must recurse through the tree"""
+    phases = rng.choice(PHASE_SETS)
+    rows = [[float(rng.choice([1, 2, 3, F(1, 2)])) for _ in range(3)] for _ in phases]
+    p = rng.choice(phases)
+    sub = rng.choice([x for x in PHASE_SETS if p in x])
+    q = rng.choice(sub)
+    ops = [['new', rows, phases, rng.choice(TS), rng.choice(PS), 0], ['view', 0, p], ['setphases', 1, sub], ['view', 1, q]]
+    names = rng.sample(PHASE_PROPS, 2)
+    ops += [['read', t, n] for t in (2, 1, 0) for n in names]
+    ops.append(rng.choice([['reset_cache', 0], ['unlink', 0], ['setphases', 0, rng.choice([x for x in PHASE_SETS if x != phases and set(phases) <= set(x)] or ['gls'])],
+                           ['reset_cache', 1], ['setT', 0, rng.choice(TS)]]))
+    ops += [['read', t, rng.choice(names)] for t in (2, 1, 0)]
+    for _ in range(rng.randint(0, 5)):
+        ops.append(gen_op(rng, derived))
+    return {'ops': ops}
+
 def gen_scripted(rng, derived=False):
-    return rng.choice([scripted_transfer, scripted_package_switch, scripted_link, scripted_pair])(rng, derived)
+    return rng.choice([scripted_transfer, scripted_package_switch, scripted_link, scripted_pair, scripted_nested])(rng, derived)
 
 DEFECT_5STEP = {'ops': [['new', [[1., 3., 0.]], 'l', 300., 101325., 0], ['proxy', 0], ['read', 0, 'h'], ['setT', 0, 320.],
                         ['read', 1, 'h'], ['setT', 0, 300.], ['read', 0, 'h']]}
-CORPUS = [DEFECT_5STEP]
+# witness of C14_vol_adm_needed: MultiStreams with different phase tuples linked with (flow, TP); the second vol read gets the
+# view cached by the first (model and implementation agree on it; the direct oracle skips such inconsistent objects)
+ADM_NEEDED = {'ops': [['new', [[1., 2., 0.], [0., 1., 4.]], 'gl', 300., 101325., 0], ['new', [[2., 0., 1.], [3., 1., 0.]], 'ls', 320., 65536., 0],
+                      ['link', 0, 1, True, False, True], ['rvol', 1], ['rvol', 0]]}
+CORPUS = [DEFECT_5STEP, ADM_NEEDED]
 WITNESSES = []
 
 def gen_cases(rng, tier):
@@ -323,6 +350,8 @@ def resolve(objs, op):
         return ['rvol', i], lambda: s.vol
     if k == 'setT': return [k, i, op[2]], lambda: setattr(s, 'T', op[2])
     if k == 'setP': return [k, i, op[2]], lambda: setattr(s, 'P', op[2])
+    if k in ('setH', 'setS'):      # T is solved by the package (oracle); filled in after the call
+        return ['seths', i, op[2] == 0, None], lambda: setattr(s, k[3], op[2])
     no_streams = is_multi(s) and not hasattr(s, '_streams')     # proxy() of a MultiStream before any reset_cache
     if k == 'setphase':
         if no_streams: return ['nop'], lambda: setattr(s, 'phase', op[2])
@@ -366,7 +395,11 @@ def resolve(objs, op):
     if k == 'view': return [k, i, op[2]], lambda: s[op[2]]
     if k == 'setphases':
         ps = sorted(set(op[2]), key=lambda c: PH[c])
-        if no_streams or (not is_multi(s) and len(ps) > 1 and s.phase not in ps): return ['nop'], lambda: setattr(s, 'phases', op[2])
+        # MultiStream.phases re-attaches cached views with 1-d indexers; a view that was turned into a MultiStream
+        # is left with a MultiStream class over a 1-d indexer (reads raise), so that combination is outside the model
+        multi_view = is_multi(s) and any(is_multi(v) for v in getattr(s, '_streams', {}).values())
+        if no_streams or multi_view or (not is_multi(s) and len(ps) > 1 and s.phase not in ps):
+            return ['nop'], lambda: setattr(s, 'phases', op[2])
         return [k, i, ''.join(ps)], lambda: setattr(s, 'phases', op[2])
     if k == 'reset_cache': return [k, i], lambda: s.reset_cache()
     if k == 'reset_thermo':
@@ -416,11 +449,11 @@ def run_impl(case):
             if name not in ERR:
                 raise
             obs.append(['err', ERR[name]])
-            res_ops.append(rop if rop[0] != 'mix' else rop[:4] + [fr_json(frac(objs[rop[1]].T))])
+            res_ops.append(rop if rop[0] not in ('mix', 'seths') else rop[:-1] + [fr_json(frac(objs[rop[1]].T))])
             continue
         k = rop[0]
-        if k == 'mix':
-            rop = rop[:4] + [fr_json(frac(objs[rop[1]].T))]
+        if k in ('mix', 'seths'):
+            rop = rop[:-1] + [fr_json(frac(objs[rop[1]].T))]
         if k == 'read':
             obs.append(['val', None if r is None else fr_json(frac(r))])
         elif k == 'rvol':
@@ -453,6 +486,7 @@ def cop(o):
     if k == 'rvol': return f'(ORVol {cnat(o[1])})'
     if k == 'setT': return f'(OSetT {cnat(o[1])} {q(o[2])})'
     if k == 'setP': return f'(OSetP {cnat(o[1])} {q(o[2])})'
+    if k == 'seths': return f'(OSetHS {cnat(o[1])} {cbool(o[2])} {q(F(o[3]))})'
     if k == 'setphase': return f'(OSetPhase {cnat(o[1])} {cph(o[2])})'
     if k == 'setflow': return f'(OSetFlow {cnat(o[1])} {cph(o[2])} {cnat(o[3])} {q(o[4])})'
     if k == 'scale': return f'(OScale {cnat(o[1])} {q(o[2])})'
